@@ -133,4 +133,102 @@ theorem pElems_arrToks : ∀ (kids : List Opt), wfElems kids = true → ∀ (res
   | .arr _ _ :: _, hw, _, _, _ => by simp [wfElems] at hw
 end
 
+/-! ## the printed lines do not depend on the keys the text cannot carry -/
+
+theorem arrLines_erase_of (n : Nat) (op tr : String) (ks : List Opt)
+    (h1 : ∀ f, arrMsgs n f (eraseElems ks) = arrMsgs n f ks)
+    (h2 : arrScalars (n + 1) (eraseElems ks) = arrScalars (n + 1) ks) :
+    arrLines n op (eraseElems ks) tr = arrLines n op ks tr := by
+  match ks with
+  | [] => simp [eraseElems]
+  | [.scalar _ v] => simp [eraseElems, arrLines]
+  | .msg k ks' :: rest =>
+    have := h1 true
+    simp only [eraseElems] at this
+    simp only [eraseElems, arrLines, this]
+  | .scalar k v :: x :: rest =>
+    simp only [eraseElems] at h2
+    cases x with
+    | scalar k2 v2 =>
+      simp only [eraseElems] at h2 ⊢
+      simp only [arrLines, h2]
+    | msg k2 v2 =>
+      simp only [eraseElems] at h2 ⊢
+      simp only [arrLines, h2]
+    | arr k2 v2 =>
+      simp only [eraseElems] at h2 ⊢
+      simp only [arrLines, h2]
+  | .arr k ks' :: rest =>
+    simp only [eraseElems] at h2 ⊢
+    simp only [arrLines, h2]
+
+
+mutual
+theorem msgFields_erase : ∀ (n : Nat) (ks : List Opt), msgFields n (eraseKids ks) = msgFields n ks
+  | _, [] => by simp [eraseKids]
+  | n, .scalar k v :: r => by simp [eraseKids, msgFields, msgFields_erase n r]
+  | n, .msg k ks :: r => by simp [eraseKids, msgFields, msgFields_erase (n + 1) ks, msgFields_erase n r]
+  | n, .arr k ks :: r => by
+    simp only [eraseKids, msgFields, msgFields_erase n r]
+    rw [arrLines_erase_of (n + 1) _ _ ks (fun f => arrMsgs_erase (n + 1) f ks) (arrScalars_erase (n + 2) ks)]
+theorem arrMsgs_erase : ∀ (n : Nat) (f : Bool) (ks : List Opt), arrMsgs n f (eraseElems ks) = arrMsgs n f ks
+  | _, _, [] => by simp [eraseElems]
+  | n, f, .scalar k v :: r => by simp [eraseElems, arrMsgs, arrMsgs_erase n false r]
+  | n, f, .msg k ks :: r => by simp [eraseElems, arrMsgs, msgFields_erase n ks, arrMsgs_erase n false r]
+  | n, f, .arr k ks :: r => by simp [eraseElems, arrMsgs, arrMsgs_erase n false r]
+theorem arrScalars_erase : ∀ (n : Nat) (ks : List Opt), arrScalars n (eraseElems ks) = arrScalars n ks
+  | _, [] => by simp [eraseElems]
+  | n, [.scalar k v] => by simp [eraseElems, arrScalars]
+  | n, [.msg k ks] => by simp [eraseElems, arrScalars]
+  | n, [.arr k ks] => by simp [eraseElems, arrScalars]
+  | n, .scalar k v :: x :: r => by
+    have := arrScalars_erase n (x :: r)
+    cases x <;> simp_all [eraseElems, arrScalars]
+  | n, .msg k ks :: x :: r => by
+    have := arrScalars_erase n (x :: r)
+    cases x <;> simp_all [eraseElems, arrScalars]
+  | n, .arr k ks :: x :: r => by
+    have := arrScalars_erase n (x :: r)
+    cases x <;> simp_all [eraseElems, arrScalars]
+end
+
+mutual
+theorem eraseKids_idem : ∀ ks : List Opt, eraseKids (eraseKids ks) = eraseKids ks
+  | [] => by simp [eraseKids]
+  | .scalar k v :: r => by simp [eraseKids, eraseKids_idem r]
+  | .msg k ks :: r => by simp [eraseKids, eraseKids_idem ks, eraseKids_idem r]
+  | .arr k ks :: r => by simp [eraseKids, eraseElems_idem ks, eraseKids_idem r]
+theorem eraseElems_idem : ∀ ks : List Opt, eraseElems (eraseElems ks) = eraseElems ks
+  | [] => by simp [eraseElems]
+  | .scalar k v :: r => by simp [eraseElems, eraseElems_idem r]
+  | .msg k ks :: r => by simp [eraseElems, eraseKids_idem ks, eraseElems_idem r]
+  | .arr k ks :: r => by simp [eraseElems, eraseElems_idem ks, eraseElems_idem r]
+end
+
+theorem inlineString_erase (s : Bool) (v : Opt) : inlineString s (eraseKeys v) = inlineString s v := by
+  cases v with
+  | scalar k x => simp [eraseKeys, inlineString]
+  | arr k ks => simp [eraseKeys, inlineString]
+  | msg k ks =>
+    match ks with
+    | [] => simp [eraseKeys, eraseKids, inlineString]
+    | [.scalar a b] => simp [eraseKeys, eraseKids, inlineString]
+    | [.msg a b] => simp [eraseKeys, eraseKids, inlineString]
+    | [.arr a b] => simp [eraseKeys, eraseKids, inlineString]
+    | x :: y :: r => cases x <;> cases y <;> simp [eraseKeys, eraseKids, inlineString]
+
+theorem optionStmt1_erase (n : Nat) (name : String) (s : Bool) (v : Opt) :
+    optionStmt1 n name s (eraseKeys v) = optionStmt1 n name s v := by
+  unfold optionStmt1
+  rw [inlineString_erase]
+  cases v with
+  | scalar k x => simp [eraseKeys]
+  | arr k ks => simp [eraseKeys]
+  | msg k ks =>
+    cases ks with
+    | nil => simp [eraseKeys, eraseKids]
+    | cons x r =>
+      have := msgFields_erase n (x :: r)
+      cases x <;> simp_all [eraseKeys, eraseKids]
+
 end J5V.Print.OptionText
